@@ -586,3 +586,29 @@ func HashStr(parts ...string) uint64 {
 	}
 	return h.Sum64()
 }
+
+// FailHard records a violation that cannot be shrunk or returned from (e.g. a deadlock that leaves
+// goroutines blocked for ever): it writes the trace and the statistics and ends the process.
+func FailHard(c *Ctx, class, signature, msg string) {
+	v := &Violation{Class: class, Signature: signature, Message: msg, OpIndex: c.OpIndex()}
+	out := os.Getenv("VERIF_OUT")
+	if out == "" {
+		out = os.TempDir()
+	}
+	if c.rt == nil {
+		b, _ := json.Marshal(v)
+		fmt.Printf("REPLAY-RESULT %s\n", b)
+		os.Exit(1)
+	}
+	worker := int(envInt("VERIF_WORKER", 0))
+	c.Trace.Violation = v
+	b, _ := json.MarshalIndent(c.Trace, "", " ")
+	_ = os.WriteFile(filepath.Join(out, fmt.Sprintf("fail-w%d.json", worker)), b, 0o644)
+	if c.st != nil {
+		c.st.Failed, c.st.Fail = true, v
+		c.st.absorb(c)
+		c.st.write(out)
+	}
+	fmt.Printf("VIOLATION-CANDIDATE (hard) class=%s signature=%s: %s\n", class, signature, msg)
+	os.Exit(1)
+}
